@@ -2,6 +2,7 @@
 from trkgen import *
 
 ID = "C04"
+THEOREM_MODULES = ["SimVerif.Props.C04", "SimVerif.Props.Ren", "SimVerif.Props.Hist"]
 THEOREM_MODULE = "SimVerif.Props.C04"
 NONTRIVIAL_FLAGS = {"multi-scene-store", "multi-scene-batch", "compared-nonempty", "competition", "continuation"}
 KINDS = ["sort", "bsort", "visual", "bvisual", "bsort", "bvisual"]
@@ -13,10 +14,10 @@ TRUSTED_BASE = ["Lean 4.33 kernel", "axioms: propext, Quot.sound, Classical.choi
                 "the interleaved-vs-projected comparison is made on the implementation; a difference is accepted only when the model reports an exact weight tie in that scene (both resolutions are then valid outcomes)"]
 ASSUMPTIONS = ["threshold > 0"]
 LEVEL_TEXT = ("Lean 4 theorems for every table and valid choice: a detection is never attached to a track of another scene; a scene step leaves the epochs and tracks of every other scene untouched; the validity of a choice and its effect on the scene's own tracks "
-              "depend only on the scene's own tracks (so a scene's steps are the same with or without other scenes' calls in between). On the implementation the interleaved history and its per-scene projections are run side by side and compared up to id renaming.")
+              "depend only on the scene's own tracks (so a scene's steps are the same with or without other scenes' calls in between). On the implementation the interleaved history and its per-scene projections are run side by side and compared up to id renaming. Over whole histories (Props/Ren.lean, Props/Hist.lean): a scene job commutes with an injective renaming of track ids between two trackers holding the same unexpired tracks of the selected scenes (scene_job_rename, other_scene_job, rel_collect — including invariance of the assignment optimum, enumeration and dynamic programme, under renaming), hence C04_projection: the answers to a scene's calls in an interleaved history of a simple SORT tracker are those of a tracker given only that scene's calls, up to renaming of ids.")
 LEVEL_NOTE = "Trusted: Lean kernel; model<->code tie sampled; the full projection theorem (bisimulation with the per-scene factored tracker) is proved at the level of one step (frame + restriction), its lift to histories is by the driver-validated runs."
 TECHNIQUE = "Lean 4 proof (frame and restriction lemmas for the relational step) with differential correspondence check and an interleaved-vs-projected run comparison"
-PARTIAL = ["C04_projection over whole histories (bisimulation with a factored per-scene tracker) is not proved in Lean; proved: C04_no_cross, C04_frame, C04_valid_restrict (one step)"]
+PARTIAL = ["C04_projection (Props/Hist.lean) is proved for the simple SORT tracker over histories of predict calls from the empty tracker: the answers to the calls of a scene in an interleaved history are, up to an injective renaming of ids, the answers of a tracker given only that scene's calls (built on the one-step renaming theorems of Props/Ren.lean, which hold for every configuration and id discipline). Not restated as theorems: the same for VisualSORT and for histories that also contain skip / wasted / idle calls (compared by the run: interleaved history vs per-scene projections, all four trackers)"]
 
 
 def generate(rng, tier):
